@@ -5,6 +5,7 @@ import scen_common, prop_mu_family
 PID = "C02"
 PROP_V = ["Props/Properties_C02.v", "Props/Properties_C02b.v"]
 GEN_MODULES = ["Consts", "Sites"]
+FLOW_FILES = ['mu.c']
 REPLAY_HINT = "VRT_SEED=<seed> [env] _work/h/<scenario>; a STUCK report lists the sleeping threads and the last steps"
 PARTIAL = ["hand-off half, proved (Properties_C02b over MuModel, any threads/programs/schedules): in a quiescent reachable world every thread "
            "asleep in nsync_mu_lock / nsync_mu_rlock faces a mutex that is HELD (C02_no_lost_handoff_partial; writer half at full strength), it "
